@@ -108,16 +108,17 @@ void h_run(Case &c) {
       static char area[8192]; int rc = 0; void *p = NULL; int e;
       if (entry == 0) rc = hwloc_set_membind(t, set, (hwloc_membind_policy_t)pol, flags); else if (entry == 1) rc = hwloc_set_proc_membind(t, getpid(), set, (hwloc_membind_policy_t)pol, flags); else if (entry == 2) rc = hwloc_set_area_membind(t, area, sizeof area, set, (hwloc_membind_policy_t)pol, flags); else { p = hwloc_alloc_membind(t, 4096, set, (hwloc_membind_policy_t)pol, flags); rc = p ? 0 : -1; } e = errno;
       size_t nbind = 0; for (auto &r : g_calls) if (r.nr == SYS_mbind || r.nr == SYS_set_mempolicy || r.nr == SYS_migrate_pages) nbind++;
+      bool conv_empty = false;
       // by cpuset, CPUs without any local NUMA node convert to an empty nodeset, which is rejected like an empty set
-      if (!bynode && !empty && !outside && !hwloc_bitmap_isincluded(topo, set)) { hwloc_bitmap_t ns = hwloc_bitmap_alloc(); hwloc_cpuset_to_nodeset(t, set, ns); if (hwloc_bitmap_iszero(ns)) { empty = true; c.cls("membind:cpuset-without-local-memory"); } hwloc_bitmap_free(ns); }
-      bool rejected = badflags || badpol || empty || outside;
+      if (!bynode && !empty && !outside && !hwloc_bitmap_isincluded(topo, set)) { hwloc_bitmap_t ns = hwloc_bitmap_alloc(); hwloc_cpuset_to_nodeset(t, set, ns); if (hwloc_bitmap_iszero(ns)) { conv_empty = true; c.cls("membind:cpuset-without-local-memory"); } hwloc_bitmap_free(ns); }
+      bool rejected = badflags || badpol || empty || outside || conv_empty;
       if (!rejected && entry == 3 && (flags & HWLOC_MEMBIND_MIGRATE)) {   // nothing to migrate in a fresh allocation: EINVAL, i.e. NULL with STRICT and the fallback allocation otherwise
         CHECK(c, nbind == 0, "reject_before_os", "%s: %zu binding system calls", what.c_str(), nbind); if (flags & HWLOC_MEMBIND_STRICT) CHECK(c, rc == -1 && e == EINVAL, "alloc_migrate", "%s: expected NULL/EINVAL, got %d errno %d", what.c_str(), rc, e); else CHECK(c, rc == 0, "alloc_fallback", "%s: expected the fallback allocation", what.c_str());
         if (p) hwloc_free(t, p, 4096); hwloc_bitmap_free(set); c.cls("membind:alloc-migrate"); continue; }
       if (rejected) { CHECK(c, nbind == 0, "reject_before_os", "%s: %zu binding system calls for a rejected request", what.c_str(), nbind);
         if (entry == 3) {   // hwloc_alloc_membind falls back to a plain allocation for an unusable set unless STRICT is given (documented, pitfall 9.29);
                             // flags and policy are validated whenever the set was usable or is given as a nodeset
-          bool setbad = empty || outside;
+          bool setbad = empty || outside;   // (a cpuset that converts to an empty nodeset is a usable set for this purpose: flags and policy are validated first)
           if ((badflags || badpol) && (bynode || !setbad)) CHECK(c, rc == -1 && e == EINVAL, "reject_einval", "%s: expected NULL/EINVAL, got %s errno %d", what.c_str(), rc ? "NULL" : "memory", e);
           else if (flags & HWLOC_MEMBIND_STRICT) CHECK(c, rc == -1, "alloc_strict", "%s: STRICT with an unusable set must fail", what.c_str()); else CHECK(c, rc == 0, "alloc_fallback", "%s: expected the documented fallback allocation, got NULL errno %d", what.c_str(), e); }
         else CHECK(c, rc == -1 && e == EINVAL, "reject_einval", "%s: expected -1/EINVAL, got %d errno %d", what.c_str(), rc, e);
